@@ -1,4 +1,4 @@
-//@@ {"inject":"src/lzip/writer.rs","features":"encoder,lzip"}
+//@@ {"inject":"src/lzip/writer.rs","features":"encoder,lzip","needs":["stubs_enc","stubs_enc_normal","stubs_dec"]}
 
 use crate::{EncodeMode, MFType};
 
@@ -31,14 +31,14 @@ fn c18b_lzip_option_clamps() {
 }
 
 // C03-B / C02-G: member header layout: "LZIP", version 1, dictionary byte that decodes to a size covering the encoder's.
-//@ {"name":"c03b_lzip_member_header","props":["C03","C02"],"obligation":"C03-B","timeout":1500,"mem_gb":9,"stubbing":true,"functions":["lzip::writer::LZIPWriter::new","lzip::writer::LZIPWriter::start_new_member","lzip::encode_dict_size","enc::lzma_writer::LZMAWriter::new_no_header"],"bounds":"dict_size one of {4096, 5000, 65536, 1 MiB} (symbolic selector); no data written; unwind 10","assumes":["LZMAEncoder::new stubbed (verif_cheap_encoder)"],"stubs":["LZMAEncoder::new -> verif_cheap_encoder"]}
+//@ {"name":"c03b_lzip_member_header","props":["C03","C02"],"obligation":"C03-B","timeout":1500,"mem_gb":9,"stubbing":true,"functions":["lzip::writer::LZIPWriter::new","lzip::writer::LZIPWriter::start_new_member","lzip::encode_dict_size","enc::lzma_writer::LZMAWriter::new_no_header"],"bounds":"dict_size 5000 (concrete, not exactly representable); no data written; unwind 10","assumes":["LZMAEncoder::new stubbed (verif_cheap_encoder)"],"stubs":["LZMAEncoder::new -> verif_cheap_encoder"]}
 #[kani::proof]
 #[kani::unwind(10)]
 #[kani::stub(crate::enc::encoder::LZMAEncoder::new, crate::enc::encoder::verif_stubs_enc::verif_cheap_encoder)]
 fn c03b_lzip_member_header() {
-    let k: u8 = kani::any();
-    kani::assume(k < 4);
-    let dict: u32 = match k { 0 => 4096, 1 => 5000, 2 => 65536, _ => 1 << 20 };
+    // concrete size (a symbolic dictionary size makes the LZ window a symbolic-size object: 570 s); 5000 is not exactly
+    // representable in the header, the arithmetic for every size is c02a_lzip_dict_byte_covers
+    let dict: u32 = 5000;
     let o = LZIPOptions {
         lzma_options: LZMAOptions::new(dict, 3, 0, 2, EncodeMode::Fast, 32, MFType::HC4, 4),
         member_size: None,
@@ -53,6 +53,8 @@ fn c03b_lzip_member_header() {
     assert!(s.len == 6, "C03-B: LZIP member header is 6 bytes");
     assert!(s.buf[0] == b'L' && s.buf[1] == b'Z' && s.buf[2] == b'I' && s.buf[3] == b'P' && s.buf[4] == 1);
     let d = crate::lzip::decode_dict_size(s.buf[5]);
-    assert!(d.is_ok() && d.unwrap() >= dict, "C02-A: member header dictionary smaller than the encoder's");
-    kani::cover!(k == 1, "size that is not exactly representable");
+    assert!(d.is_ok(), "C03-B: dictionary byte of the member header is invalid");
+    let dv = d.unwrap();
+    assert!(dv >= dict, "C02-A: member header dictionary smaller than the encoder's");
+    kani::cover!(dv > dict, "size that is not exactly representable");
 }
